@@ -17,6 +17,14 @@ def opHy (a : List String) : String :=
   let d := fl a
   out (hyCentre d) ++ " | " ++ out (hyYlowInner d)
 
+/-- c05hj d… / below… / above…   (an empty part = no neighbour) → all y-face values -/
+def opHyJoin (a : List String) : String :=
+  match splitOnTok "/" a with
+  | [d, b, u] =>
+    let o (l : List String) : Option (List Float) := if l.isEmpty then none else some (fl l)
+    out (hyYlowAll (fl d) (o b) (o u))
+  | _ => "bad-op"
+
 def opPD (a : List String) : String :=
   let regs := (splitOnTok "/" a).filterMap fun r => match r with
     | s :: d => some (fl d, s.toNat!)
